@@ -55,6 +55,14 @@ def _sigma(kind, n, seed):
     if kind == 'full':
         s = spd(g, n)
         return s, s
+    if kind in ('full-small', 'full-large', 'vector-small'):
+        # the whitened measures do not depend on the overall scale of sigma_k: the same matrix at
+        # the scale of volts^2 (1e-10) or of raw scanner units (1e6) is a legitimate covariance
+        c = 1e6 if kind.endswith('large') else 1e-10
+        if kind.startswith('vector'):
+            return diag * c, diag * c
+        s = spd(g, n) * c
+        return s, s
     raise ValueError(kind)
 
 
@@ -83,7 +91,7 @@ def shards(tier, seed):
                 out.append({'kind': 'laws', 'method': m, 'n_cond': n_cond, 'fill': fill})
     # C: whitened measures on Tier-A with every sigma form
     for m in WHITE:
-        for sk in ['none', 'vector', 'diagmatrix', 'full']:
+        for sk in ['none', 'vector', 'diagmatrix', 'full', 'full-small', 'full-large', 'vector-small']:
             out.append({'kind': 'white', 'method': m, 'alpha': '012^3', 'sigma': sk, 'x': [0, 27]})
             nv = 64
             out.append({'kind': 'white', 'method': m, 'alpha': '01^6', 'sigma': sk, 'x': [0, nv]})
@@ -233,7 +241,7 @@ def _laws(case, ctx):
             return v
     sigmas = ['none']
     if white:
-        sigmas = ['none', 'vector', 'diagmatrix', 'full']
+        sigmas = ['none', 'vector', 'diagmatrix', 'full', 'full-small', 'full-large']
     for n1, n2 in [(1, 1), (1, 2), (2, 1), (2, 3)]:
         X, Y = make(n1), make(n2)
         for skind in sigmas:
@@ -256,6 +264,16 @@ def _laws(case, ctx):
                 if not np.allclose(np.asarray(back).T, np.asarray(got), rtol=0, atol=2 * tol):
                     ctx.fail('compare|method=%s,%s|asymmetric' % (method, tag), sub,
                              '%r vs %r' % (got, np.asarray(back).T))
+                # scale: every similarity named in the statement is invariant to a positive rescaling
+                # of one argument (the squared Bures metric is not a similarity and is left out) -
+                # RDMs in volts^2 or raw scanner units must give the value of the definition too
+                if method != 'bures_metric':
+                    for c in (1e-10, 1e8):
+                        gs = compare(_wrap(X * c, 'rdms'), _wrap(Y, 'rdms'), method=method, **kw)
+                        ctx.case(dict(sub, law='scale', c=c))
+                        if not np.allclose(np.asarray(gs), np.asarray(got), rtol=0, atol=2 * tol):
+                            ctx.fail('compare|method=%s,%s|scale-variant' % (method, tag), dict(sub, c=c),
+                                     'first argument times %g: %r vs %r' % (c, gs, got))
                 # self similarity
                 selfs = compare(_wrap(X, 'rdms'), _wrap(X, 'rdms'), method=method, **kw)
                 ctx.case(dict(sub, law='self'))
